@@ -132,6 +132,15 @@ class Storage:
         io.open = self._open
         os.mkdir = self._mkdir
 
+    def _mkdir_real_tree(self, d):
+        """Create a directory tree on behalf of the caller, bypassing the fault seam."""
+        parts = []
+        while d and not os.path.isdir(d):
+            parts.append(d)
+            d = os.path.dirname(d)
+        for q in reversed(parts):
+            self._mkdir(q)
+
     def arm(self, faults):
         self.plan = {(f["site"], f["occurrence"]): f["errno"] for f in faults}
         self.count = {}
@@ -378,6 +387,11 @@ def run_segment(case, seg_steps, model, root, magick):
                     if ok and st.fired:
                         # the library swallowed an injected error and acknowledged the save
                         cnt("probe:save-acknowledged-despite-fault")
+                    if not ok and not st.fired:
+                        # C18.L: no fault is active in this step, whatever earlier faulted saves left behind
+                        viol.append({"oracle": "C18.L", "culprit": "save-fails-without-active-fault:" + ev.get("exc", "?"), "step": idx,
+                                     "detail": {"path": key, "path_state_before": model.get(key, {}).get("state", "absent"),
+                                                "image": case["images"][op["img"]]}})
                     if ok:
                         if model.get(key, {}).get("state") == "ack":
                             cnt("probe:overwrite-of-acknowledged-path")
@@ -529,6 +543,9 @@ def run_segment(case, seg_steps, model, root, magick):
                         res = apply_probes(build_correction(spec), spec, ["std", "flat", "alt"])
                     key = norm_path(op["path"])
                     P = __import__("pathlib").Path(path if path.endswith(".npz") else path + ".npz")
+                    # the caller provides an existing directory (TypeCorrection / DriftCorrection do not create it)
+                    if not os.path.isdir(os.path.dirname(str(P))):
+                        st._mkdir_real_tree(os.path.dirname(str(P)))
                     try:
                         with _quiet():
                             corr.save(P)
@@ -539,6 +556,9 @@ def run_segment(case, seg_steps, model, root, magick):
                     except KeyboardInterrupt:
                         ok = False
                         ev["exc"] = "KeyboardInterrupt"
+                    if not ok and not st.fired:
+                        viol.append({"oracle": "C18.L", "culprit": "correction-save-fails-without-active-fault:" + ev.get("exc", "?"),
+                                     "step": idx, "detail": {"path": key, "correction": spec}})
                     model[key] = {"state": "ack", "corr": op["corr"], "out": res} if ok else {"state": "indet"}
                     ev["ack"] = ok
                 elif k == "corr_read":
